@@ -23,7 +23,8 @@ RULE = ("random programs P ::= skip | raise | use sym | seq | scope units P | at
         "symbols validated against the live tables; every scope has 1-4 units (dict / Quantity valued, optional "
         "fields, custom or built-in conversion classes) and with probability ~0.5 a fault at a random registration "
         "index (existing symbol, symbol of an enclosing scope, clash with a prefixed symbol in either direction, "
-        "invalid prefix, missing magnitude/dimensions, non-mapping definition, Quantity whose evaluation raises); "
+        "invalid prefix, missing magnitude/dimensions, non-mapping definition, Quantity whose evaluation raises; each of the "
+        "access faults also as a non-Exception: BaseException subclass / KeyboardInterrupt / SystemExit); "
         "DIP texts with $unit definitions that parse and that fail, optionally inside an outer scope, and on every run "
         ">=3 texts for each of 40 positions in which a DIP call site consumes a unit, directly or only through the unit of a referenced / injected / imported node (expression operands incl. references "
         "and function arguments, the unit of the node holding a numerical expression, option lines and !options arrays, "
@@ -1211,12 +1212,13 @@ def trace_to_prog(trace):
         if t[0] == "init":
             if t[1] is None:
                 return None
-            stack.append({"units": t[1], "state": "init", "children": []})
+            stack.append({"units": t[1], "state": "init", "children": [], "before": t[2]})
         elif t[0] == "init-end":
             fr = stack[-1]
             if fr.get("state") != "init":
                 return None
-            ok = all(sym in t[1] for sym, _ in fr["units"])
+            # completed iff exactly its symbols were appended behind what was registered before
+            ok = t[1] == (fr["before"] or []) + [sym for sym, _ in fr["units"]]
             observed.append(["entered", ok, t[1], t[2]])
             if ok:
                 fr["state"] = "open"
